@@ -1449,3 +1449,24 @@ M("benign-size-via-local-and-ascii-len", "ALL", "", "state.py",
   """        wire = queued_op.operation_update.to_dict()
         text = json.dumps(wire)
         return len(text)""", expect="silent")
+M("c14-callback-result-truthiness", "C14", "R2.callback-result", "context.py",
+  "            if checkpointed_result.result is None:\n                return None  # type: ignore", "            if not checkpointed_result.result:\n                return None  # type: ignore")
+M("c02-step-result-truthiness", "C02", "R2.none-only-when-no-payload", "operation/step.py",
+  "            if checkpointed_result.result is None:\n                return CheckResult.create_completed(None)  # type: ignore",
+  "            if not checkpointed_result.result:\n                return CheckResult.create_completed(None)  # type: ignore")
+M("c17-set-logger-loses-parent", "C17", "R1.context-logger-carries-enclosing-id", "context.py",
+  "            info=self._log_info,", "            info=LogInfo(execution_state=self.state),")
+M("c12-filters-compiled-unescaped", "C12", "R4.string-filters-match-literally", "retries.py",
+  """            pattern.search(str(error))
+            if isinstance(pattern, re.Pattern)
+            else pattern in str(error)""", """            (pattern if isinstance(pattern, re.Pattern) else re.compile(pattern)).search(str(error))""")
+M("c20-shallow-copy-then-nested-store", "C20", "R5.reader-does-not-mutate-its-input", "lambda_service.py",
+  "        data_copy = copy.deepcopy(data)", "        data_copy = copy.copy(data)")
+M("c17-completed-context-keeps-logger-muted", "C17", "R6.boundary-on-small-histories", "state.py",
+  "                self._visited_operations.update(self._recorded_descendants(operation_id))\n", "")
+M("benign-filters-escaped-regex", "ALL", "", "retries.py",
+  """            pattern.search(str(error))
+            if isinstance(pattern, re.Pattern)
+            else pattern in str(error)""", """            (pattern if isinstance(pattern, re.Pattern) else re.compile(re.escape(pattern))).search(str(error))""", expect="silent")
+M("benign-from-json-dict-rebuilds-nested", "ALL", "", "lambda_service.py",
+  "        data_copy = copy.deepcopy(data)", "        data_copy = {k: (dict(v) if isinstance(v, dict) else v) for k, v in data.items()}", expect="silent")
